@@ -164,6 +164,7 @@ type c15Req struct {
 	gzCut    int // permille kept
 	fault    *c15Fault
 	hook     *c15Hook
+	isRetry  bool // the same request sent again after a server-side failure
 }
 
 type c15Sim struct {
@@ -475,15 +476,22 @@ func (s *c15Sim) upload(r *c15Req) {
 	req.Header.Set("Content-Type", "application/octet-stream")
 
 	fired := s.world.nFired
+	innerArmed := false
 	if s.depth == 0 {
 		s.world.arm(r.fault)
 		s.hook = r.hook
 		s.outerEnd = r.end
+	} else if r.fault != nil && s.world.fault == nil {
+		s.world.arm(r.fault)
+		innerArmed = true
+		s.class("fault-armed-in-interleaved-request")
 	}
 	s.pkgCalls = 0
 	rec, crashed := s.serve(s.handler, req)
 	if s.depth == 0 {
 		s.world.fault, s.hook = nil, nil
+	} else if innerArmed {
+		s.world.fault = nil
 	}
 	faultFired := s.world.nFired != fired
 	s.rec.Add("requests:add-entries", 1)
@@ -543,6 +551,14 @@ func (s *c15Sim) upload(r *c15Req) {
 		s.class("defect-free-request")
 	}
 	s.after()
+	// a client whose request failed on the server side usually sends the very same request again
+	if faultFired && code >= 500 && !r.isRetry && c15Uniform(s.rt, "retryAfterFault", 3) > 0 {
+		r2 := *r
+		r2.fault, r2.hook, r2.isRetry = nil, nil, true
+		s.class("retry-of-a-request-that-hit-a-fault")
+		s.rec.Add("retries-after-fault", 1)
+		s.upload(&r2)
+	}
 }
 
 func (s *c15Sim) noteCommit(r *c15Req, st c15Snap, faultFired bool) {
@@ -827,8 +843,21 @@ func (s *c15Sim) genDelta() int64 {
 
 func (s *c15Sim) genFault(maxNth int) *c15Fault {
 	rt := s.rt
-	if !s.faultsOn || s.depth > 0 || c15Uniform(rt, "faultDice", 100) >= 30 {
+	if !s.faultsOn || c15Uniform(rt, "faultDice", 100) >= 30 {
 		return nil
+	}
+	if s.depth > 0 {
+		// a request issued at a hook point of an in-flight upload (a concurrent client) may meet a storage or lock
+		// error too, as long as the fault of the outer request is not still waiting to fire (one armed fault at a time)
+		if s.world.fault != nil {
+			return nil
+		}
+		f := &c15Fault{op: []int{c15OpUpload, c15OpUpload, c15OpReplace}[c15Uniform(rt, "innerFaultOp", 3)], nth: 1 + c15Uniform(rt, "innerFaultNth", min(maxNth, 4)),
+			mode: []int{c15ModeErr, c15ModeErr, c15ModeErrApplied}[c15Uniform(rt, "innerFaultMode", 3)]}
+		if f.op == c15OpReplace {
+			f.nth = 1
+		}
+		return f
 	}
 	f := &c15Fault{}
 	switch c15Pick(rt, "faultOp", c15W{"upload", 9}, c15W{"replace", 6}, c15W{"fetch", 3}, c15W{"lockfetch", 2}) {
@@ -1200,6 +1229,12 @@ func (s *c15Sim) genUpload(l *c15Log, force string) *c15Req {
 		r.cut = true
 	}
 	r.fault = s.genFault(2 + 2*len(pk) + 2)
+	if r.fault == nil && s.faultsOn && s.world.fault == nil && force == "ticket" && r.tk != nil && r.tk.size < st.next && c15Uniform(rt, "cutCommitFault", 2) == 0 {
+		// a commit behind the upload frontier cuts tiles: its few storage writes get a fault far more often
+		r.fault = &c15Fault{op: c15OpUpload, nth: 1 + c15Uniform(rt, "cutCommitFaultNth", 4),
+			mode: []int{c15ModeErr, c15ModeErr, c15ModeErrApplied}[c15Uniform(rt, "cutCommitFaultMode", 3)]}
+		s.class("fault-on-a-commit-behind-the-upload-frontier")
+	}
 	return r
 }
 
@@ -1223,6 +1258,10 @@ func (s *c15Sim) run() {
 		s.prefill(a, int64(rapid.IntRange(2040, 2700).Draw(rt, "prefillWindow")))
 	case "big":
 		s.prefill(a, 65536+int64(rapid.IntRange(-700, 300).Draw(rt, "prefillBig")))
+	}
+
+	if c15Uniform(rt, "scriptedCutCommit", 5) == 2 {
+		s.scriptCutCommit(a)
 	}
 
 	steps := rapid.IntRange(3, 14).Draw(rt, "steps")
@@ -1295,6 +1334,54 @@ func (s *c15Sim) run() {
 			s.after()
 		}
 	}
+}
+
+// scriptCutCommit steers into the state "entries uploaded past a ticketed mid-tile size, nothing committed there yet"
+// and then commits that size with its ticket — the path that has to cut tiles out of a wider partial tile —,
+// optionally under a storage fault and with the client retrying. Every step is an ordinary generated request
+// judged by the ordinary oracle; only the choice of steps is scripted.
+func (s *c15Sim) scriptCutCommit(l *c15Log) {
+	rt := s.rt
+	s.class("scripted-cut-commit-prefix")
+	st := s.snap(l)
+	t := st.pend + int64(rapid.IntRange(1, 600).Draw(rt, "cutT"))
+	if t%256 == 0 {
+		t++
+	}
+	if t >= s.capSize-2 {
+		return
+	}
+	ep := s.epoch
+	s.addCheckpoint(l, t-st.pend, nil)
+	s.upload(s.probe(l)) // the client learns the state and gets a ticket for t
+	p := t + int64(rapid.SampledFrom([]int{1, 2, 50, 100, 255, 256, 300}).Draw(rt, "cutP"))
+	if p > s.capSize {
+		p = s.capSize
+	}
+	st = s.snap(l)
+	if s.epoch != ep || st.pend != t || p <= t {
+		return
+	}
+	s.addCheckpoint(l, p-t, nil)
+	// everything up to p is uploaded, but the commit of p fails in the lock store (and is not retried)
+	r := s.genUpload(l, "resume")
+	if s.faultsOn {
+		r.fault = &c15Fault{op: c15OpReplace, nth: 1, mode: c15ModeErr}
+		r.isRetry = true
+	} else {
+		r.hook = &c15Hook{at: "commit"}
+	}
+	s.upload(r)
+	st = s.snap(l)
+	if s.epoch != ep || len(s.loadBearing(l, st)) == 0 {
+		return
+	}
+	r2 := s.genUpload(l, "ticket")
+	if s.faultsOn && c15Uniform(rt, "cutFault", 4) > 0 {
+		r2.fault = &c15Fault{op: c15OpUpload, nth: 1 + c15Uniform(rt, "cutFaultNth", 3),
+			mode: []int{c15ModeErr, c15ModeErr, c15ModeErrApplied}[c15Uniform(rt, "cutFaultMode", 3)]}
+	}
+	s.upload(r2)
 }
 
 // prefill mirrors a prefix of log l with one add-checkpoint and one complete upload.
